@@ -22,10 +22,23 @@ def c04_struct(tier="quick", seed=0):
     out = []
     seen = {}
     for mod, mi in S.source().modules.items():
+        funcs = [f for f in ast.walk(mi.tree) if isinstance(f, (ast.FunctionDef, ast.AsyncFunctionDef))]
         for n in ast.walk(mi.tree):
             if isinstance(n, ast.Raise) and n.exc is not None:
-                cls = _S_.unparse(n.exc.func) if isinstance(n.exc, ast.Call) else _S_.unparse(n.exc)
-                seen.setdefault(cls, []).append(f"{mod.split('.')[-1]}:{n.lineno}")
+                classes = [_S_.unparse(n.exc.func) if isinstance(n.exc, ast.Call) else _S_.unparse(n.exc)]
+                if isinstance(n.exc, ast.Name):
+                    # `raise name`: the classes of everything assigned to the name in the enclosing function; a name bound by
+                    # `except ... as name` re-raises what was caught
+                    encl = [f for f in funcs if any(m is n for m in ast.walk(f))]
+                    fn = min(encl, key=lambda f: sum(1 for _ in ast.walk(f))) if encl else None
+                    vals = [a.value for a in ast.walk(fn) if isinstance(a, ast.Assign) and any(isinstance(t, ast.Name) and t.id == n.exc.id for t in a.targets)] if fn else []
+                    handler = fn is not None and any(isinstance(h, ast.ExceptHandler) and h.name == n.exc.id for h in ast.walk(fn))
+                    if vals and all(isinstance(v, ast.Call) for v in vals):
+                        classes = [_S_.unparse(v.func) for v in vals]
+                    elif handler and not vals:
+                        classes = ["e"]
+                for cls in classes:
+                    seen.setdefault(str(cls), []).append(f"{mod.split('.')[-1]}:{n.lineno}")
     # private exception classes of the package (defined in src/microjs, outside the JSError family) are acceptable
     # when the package itself catches them: some handler names the class (its conversion site)
     defined, caught = set(), set()
